@@ -557,7 +557,7 @@ class Rng(random.Random):
 CRASH_BUDGET_HIT = []     # (exe, first skipped case, number skipped) per run_cases call that gave up
 
 
-def run_cases(exe, cases, env=None, timeout=300, wrapper=None, max_crashes=12):
+def run_cases(exe, cases, env=None, timeout=300, wrapper=None, max_crashes=8):
     """Feed `cases` (list of script texts, without the marker line) to a script-driven executable that
     echoes '# case <i>' marker lines and starts fresh state at each.  Survives crashes: the case
     during which the process died is reported with crash=(rc, tail of stderr) and the remaining
@@ -595,9 +595,10 @@ def run_cases(exe, cases, env=None, timeout=300, wrapper=None, max_crashes=12):
             if results[i] is None:
                 results[i] = ([], None)
         start = last + 1
-        ncrash += 1
+        if rc in (124, -14, 142):      # timed out, or killed by the harness' own alarm(): a HANG (an abort is cheap)
+            ncrash += 1
         if ncrash >= max_crashes and start < len(cases):
-            # a tree on which the harness keeps dying (each hang costs its alarm time): the dozen crashes found are
+            # a tree on which the harness keeps hanging (each hang costs its alarm time): the dozen hangs found are
             # reported, the remaining cases are not run (empty output, no crash) so that the check ends in minutes
             CRASH_BUDGET_HIT.append((os.path.basename(exe), start, len(cases) - start))
             for i in range(start, len(cases)):
